@@ -30,6 +30,8 @@ Lemma model_step_good smax tab e m tab' :
   tab_good tab' /\ (forall name, m = MRouted name -> good_name name).
 Proof.
   intros G H. unfold model_step in H. rewrite topic_model_is_spec in H.
+  destruct (contains_rune (e_topic e) 43 || contains_rune (e_topic e) 35).
+  { inversion H. subst. split; [exact G | intros name E; discriminate]. }
   destruct (valid_pub_topic_spec (e_topic e)) eqn:V; cbn [negb] in H.
   2:{ inversion H. subst. split; [exact G | intros name E; discriminate]. }
   destruct (0 <? e_alias e).
@@ -96,6 +98,15 @@ Proof.
   { intros ver name. cbn [obs_ok model_obs o_published o_retained o_spy o_closed o_ack o_reason].
     rewrite is_single_refl. cbn [all_eq forallb]. rewrite beq_bytes_refl.
     destruct (e_retain e); cbn [nilb andb negb]; rewrite ?is_single_refl; cbn [andb]; apply ACK. }
+  destruct (contains_rune (e_topic e) 43 || contains_rune (e_topic e) 35) eqn:W.
+  { (* a wildcard: the specification refuses the name, the connection is closed, nothing is routed *)
+    rewrite !contains_has in W.
+    assert (V : valid_pub_topic_spec (e_topic e) = false).
+    { unfold valid_pub_topic_spec. destruct (has 35 (e_topic e)); [reflexivity|].
+      destruct (has 43 (e_topic e)); [reflexivity | discriminate]. }
+    assert (NB : nilb (e_topic e) = false).
+    { destruct (e_topic e); [discriminate | reflexivity]. }
+    rewrite NB, V. split; [reflexivity|]. split; [exact NE|]. intro ver. reflexivity. }
   destruct (nilb (e_topic e)) eqn:NB.
   - destruct (e_topic e) as [|c t] eqn:ET; [|discriminate].
     change (valid_pub_topic_spec []) with true. cbn [negb].
